@@ -173,13 +173,20 @@ def encNode : Option Replace.Node → SExp
 
 def driverStep (s : DState) (line : SExp) : DState × SExp :=
   match line with
-  | .list [.atom "replace", old, new, fault] =>
-    match asOpt? asKind? old, asKind? new, asFault? fault with
-    | some old, some new, some f =>
-      let r := Replace.replace { dest := old.map (fun k => { kind := k, blob := 1 }), temp := some { kind := new, blob := 2 } } f
-      (s, .list [.atom (if r.raised then "raised" else "done"), encNode r.fs.dest,
-                 .atom (if r.fs.temp.isSome || r.fs.aside.isSome then "temp-left" else "clean")])
-    | _, _, _ => (s, .atom "bad-op")
+  -- a save (target format t) whose final replace meets the fault: what lies at the destination afterwards
+  -- (M-Replace); in memory the font has read what a save-as reads and stays bound to its UFO
+  | .list [.atom "savefault", t, old, new, fault] =>
+    withMem s fun m =>
+      match asFmt? t, asOpt? asKind? old, asKind? new, asFault? fault with
+      | some t, some old, some new, some f =>
+        let r := Replace.replace { dest := old.map (fun k => { kind := k, blob := 1 }), temp := some { kind := new, blob := 2 } } f
+        let out := SExp.list [.atom (if r.raised then "raised" else "done"), encNode r.fs.dest]
+        if r.raised then
+          match saveFailsAtReplace featureHeader m t with
+          | none => (s, err "save")
+          | some m' => ({ mem := some m' }, out)
+        else (s, .atom "bad-op")      -- a completed save is the op `save`
+      | _, _, _, _ => (s, .atom "bad-op")
   -- pure conversion functions
   | .list [.atom "findheader", t] =>
     match asText? t with
